@@ -151,3 +151,16 @@ def str_consts(fn):
             if "str" in op:
                 out.append(op["str"])
     return out
+
+
+def is_std_callee(c):
+    """the callee lives in core/alloc/std (including `<T as core::..>` trait forms)"""
+    if " as core::" in c or " as alloc::" in c or " as std::" in c:
+        return True
+    return c.lstrip("<&").startswith(("core::", "alloc::", "std::"))
+
+
+def need_parser_crate(F):
+    from .core import need
+    need(F.abortable_parser_version == "0.2.3",
+         "abortable_parser %s: the variant summaries of its combinators (cfg.VARIANT_SUMMARIES) were read from 0.2.3" % F.abortable_parser_version)
